@@ -475,6 +475,22 @@ func missedResend(res *result, v *logView, c *callView, ri int64, mr int) []find
 				}
 			}
 		}
+		// A transmission failed (the call's own context was alive) and the call is
+		// still in the retry phase: any timer the engine could legitimately rely on
+		// was armed no later than the failure, so one full interval later it must
+		// have re-sent, failed with the retry limit or returned the error. (What the
+		// engine does today, returning the send error at once, never gets here: its
+		// next own event follows the failure immediately.)
+		sig, windowFrom := "missed-resend", 0
+		if last.T == "send.exit" && strings.HasPrefix(last.S, "fail") {
+			armed = &armRec{seq: last.Seq, now: last.Now}
+			sig = "stalled-after-failed-resend"
+			if last.K == 0 {
+				sig = "stalled-after-failed-send"
+			}
+		} else if armed != nil {
+			windowFrom = armed.seq
+		}
 		if armed == nil || tr.Now < armed.now+ri {
 			continue
 		}
@@ -484,7 +500,7 @@ func missedResend(res *result, v *logView, c *callView, ri int64, mr int) []find
 			if e.Seq > tr.Seq {
 				break
 			}
-			if e.Seq < armed.seq {
+			if e.Seq < windowFrom {
 				continue
 			}
 			if (e.C == c.i && (e.T == "ack.call" || e.T == "res.call" || e.T == "err.call" || e.T == "cancel")) || e.T == "close.call" {
@@ -507,7 +523,7 @@ func missedResend(res *result, v *logView, c *callView, ri int64, mr int) []find
 			reacted = true
 		}
 		if !reacted {
-			out = append(out, finding{"C25", "missed-resend", fmt.Sprintf("call %d: timer armed at t=%dms, clock at t=%dms (interval %dms), world settled, no retransmission", c.i, armed.now, tr.Now, ri)})
+			out = append(out, finding{"C25", sig, fmt.Sprintf("call %d: last activity of Do: %s; reference time t=%dms, clock at t=%dms (interval %dms), world settled, Do neither re-sent nor returned", c.i, last.String(), armed.now, tr.Now, ri)})
 		}
 	}
 	return out
